@@ -271,3 +271,133 @@ Proof. intros. reflexivity. Qed.
 
 Lemma frag_default_order : default_channels_first = false.
 Proof. reflexivity. Qed.
+
+(* ================= the Dict (per-key) instance of VecFrameStack runs Layer A for every key ================= *)
+Local Open Scope nat_scope.
+
+Lemma lookup_map_key {X Y} : forall (kv : list (Z * X)) (f : Z -> X -> Y) k x d,
+  NoDup (map fst kv) -> In (k, x) kv ->
+  lookup k (map (fun p => (fst p, f (fst p) (snd p))) kv) d = f k x.
+Proof.
+  induction kv as [|[k0 x0] kv IH]; intros f k x d ND HIn; [destruct HIn|].
+  cbn [map fst snd lookup]. inversion_clear ND as [|? ? N1 N2].
+  destruct HIn as [E|HIn].
+  - inv E. rewrite Z.eqb_refl. reflexivity.
+  - destruct (Z.eqb k k0) eqn:E.
+    + apply Z.eqb_eq in E. subst k0. exfalso. apply N1. cbn. apply in_map_iff. exists (k, x). auto.
+    + apply IH; auto.
+Qed.
+
+Lemma lookup_in {X} : forall (kv : list (Z * X)) k x d, NoDup (map fst kv) -> In (k, x) kv -> lookup k kv d = x.
+Proof.
+  induction kv as [|[k0 x0] kv IH]; intros k x d ND HIn; [destruct HIn|].
+  cbn [map fst lookup] in *. inversion_clear ND as [|? ? N1 N2].
+  destruct HIn as [E|HIn].
+  - inv E. rewrite Z.eqb_refl. reflexivity.
+  - destruct (Z.eqb k k0) eqn:E.
+    + apply Z.eqb_eq in E. subst k0. exfalso. apply N1. apply in_map_iff. exists (k, x). auto.
+    + apply IH; auto.
+Qed.
+
+Lemma map_pair_eta {X Y} : forall (g : Z -> X -> Y) (kv : list (Z * X)),
+  map (fun '(k, t) => (k, g k t)) kv = map (fun p => (fst p, g (fst p) (snd p))) kv.
+Proof. intros. apply map_ext. intros [a b]. reflexivity. Qed.
+
+Lemma lookup_map_key' {X Y} : forall (kv : list (Z * X)) (f : Z -> X -> Y) k x d,
+  NoDup (map fst kv) -> In (k, x) kv ->
+  lookup k (map (fun '(k0, t) => (k0, f k0 t)) kv) d = f k x.
+Proof. intros. rewrite map_pair_eta. apply lookup_map_key; assumption. Qed.
+
+(* the event seen by key k of a Dict observation *)
+Definition key_event (k : Z) (ev : bevent) : option (fevent tensor) :=
+  match ev with
+  | BReset (ODict kv) => Some (FReset (lookup k kv tempty))
+  | BStep (mk_bout (ODict kv) _ d _ _) => Some (FStep (lookup k kv tempty) d None)
+  | _ => None
+  end.
+(* the observation is a Dict with distinct keys containing k *)
+Definition dict_ok (k : Z) (ev : bevent) : Prop :=
+  match ev with
+  | BReset (ODict kv) | BStep (mk_bout (ODict kv) _ _ _ _) => NoDup (map fst kv) /\ In k (map fst kv)
+  | _ => False
+  end.
+
+Lemma in_keys_lookup {X} : forall (kv : list (Z * X)) k d, NoDup (map fst kv) -> In k (map fst kv) -> In (k, lookup k kv d) kv.
+Proof.
+  intros kv k d ND HIn. apply in_map_iff in HIn. destruct HIn as ([k' x] & E & HIn). cbn in E. subst k'.
+  rewrite (lookup_in kv k x d ND HIn). exact HIn.
+Qed.
+
+Lemma fs_state_dict_key : forall n cf z k fevs evs st,
+  Forall (dict_ok k) evs ->
+  map (key_event k) evs = map Some fevs ->
+  Forall (fun e => tzeros_like (frame_of e) = z) fevs ->
+  lookup k (fs_state n cf st evs) [] = fold_left (fs_apply z n) fevs (lookup k st []).
+Proof.
+  intros n cf z k fevs. induction fevs as [|fe fevs IH]; intros evs st OK M Z.
+  - destruct evs; [reflexivity|discriminate].
+  - destruct evs as [|ev evs]; [discriminate|]. cbn [map] in M. injection M as M1 M2.
+    inversion_clear Z as [|? ? Z1 Z2]. inversion_clear OK as [|? ? O1 O2].
+    cbn [fold_left fs_state]. 
+    destruct ev as [o|[obs rew d tl term]].
+    + destruct o as [t|kv]; [destruct O1|]. cbn in M1. injection M1 as M1. subst fe. cbn in Z1.
+      destruct O1 as [ND HIn]. rewrite (IH evs _ O2 M2 Z2). f_equal.
+      cbn [w_reset fst]. unfold st_restart, kvs.
+      rewrite (lookup_map_key' kv (fun _ t => fs_reset (tzeros_like t) n t) k (lookup k kv tempty) [] ND (in_keys_lookup kv k tempty ND HIn)).
+      cbn [fs_apply]. rewrite Z1. reflexivity.
+    + destruct obs as [t|kv]; [destruct O1|]. cbn in M1. injection M1 as M1. subst fe. cbn in Z1.
+      destruct O1 as [ND HIn]. rewrite (IH evs _ O2 M2 Z2). f_equal.
+      cbn [w_step fst]. destruct d; cbn [fs_apply Wrappers.fs_next].
+      * unfold st_restart, kvs.
+        rewrite (lookup_map_key' kv (fun _ t => fs_reset (tzeros_like t) n t) k (lookup k kv tempty) [] ND (in_keys_lookup kv k tempty ND HIn)).
+        rewrite Z1. reflexivity.
+      * unfold st_push, kvs.
+        rewrite (lookup_map_key' kv (fun k0 t => fs_push (lookup k0 st []) t) k (lookup k kv tempty) [] ND (in_keys_lookup kv k tempty ND HIn)).
+        reflexivity.
+Qed.
+
+(* after a reset and any further history of Dict observations, the window kept for key k is the zero-padded
+   suffix of the current episode of that key's frames *)
+Theorem dict_window_is_episode_suffix : forall n cf z k kv0 fevs evs st,
+  1 <= n ->
+  dict_ok k (BReset (ODict kv0)) -> Forall (dict_ok k) evs ->
+  map (key_event k) evs = map Some fevs ->
+  Forall (fun e => tzeros_like (frame_of e) = z) (FReset (lookup k kv0 tempty) :: fevs) ->
+  lookup k (fs_state n cf st (BReset (ODict kv0) :: evs)) []
+  = padded_suffix z n (ep_frames (FReset (lookup k kv0 tempty) :: fevs)).
+Proof.
+  intros n cf z k kv0 fevs evs st Hn O0 OK M Z.
+  rewrite <- (window_is_episode_suffix z n Hn).
+  rewrite (fs_state_dict_key n cf z k (FReset (lookup k kv0 tempty) :: fevs) (BReset (ODict kv0) :: evs) st).
+  - unfold Wrappers.fs_run. cbn [fold_left fs_apply]. reflexivity.
+  - constructor; assumption.
+  - cbn [map key_event]. rewrite M. reflexivity.
+  - exact Z.
+Qed.
+
+(* what the Dict frame stack returns: per key, the concatenation of that key's window (observation) and of
+   that key's previous frames plus its old terminal frame (terminal observation) *)
+Theorem dict_step_output : forall n cf st kv rew d tl term,
+  let st' := fst (w_step (WFrameStack n cf) st (mk_bout (ODict kv) rew d tl term)) in
+  snd (w_step (WFrameStack n cf) st (mk_bout (ODict kv) rew d tl term))
+  = mk_bout (ODict (map (fun '(k, w) => (k, tcat (lookup k cf false) w)) st')) rew d tl
+      (if d then option_map (fun x => match x with
+                                      | ODict tkv => ODict (map (fun '(k, w) => (k, tcat (lookup k cf false) w)) (st_push st x))
+                                      | OBox _ => st_show cf x (st_push st x)
+                                      end) term
+       else term).
+Proof.
+  intros n cf st kv rew d tl term. destruct d; cbn.
+  - destruct term as [[tm|tkv]|]; reflexivity.
+  - reflexivity.
+Qed.
+
+(* VecTransposeImage on a Dict: exactly the image keys are transposed, every other key is untouched,
+   for any number of image keys *)
+Theorem transpose_dict_keys : forall keys kv k t,
+  NoDup (map fst kv) -> In (k, t) kv ->
+  lookup k (kvs (tr_obs keys (ODict kv))) tempty = if memk k keys then ttranspose t else t.
+Proof.
+  intros keys kv k t ND HIn. unfold tr_obs, kvs.
+  apply (lookup_map_key' kv (fun k0 t0 => if memk k0 keys then ttranspose t0 else t0) k t tempty ND HIn).
+Qed.
